@@ -115,8 +115,8 @@ static void flush_result(const std::string &status) {
   // every chunk is given to exactly one worker: a loaded chunk whose owner has returned without taking all of its blocks belongs to nobody
   { buffergroup *g = buffergroup::verif_instance();
     if (g && g->verif_ctrl(0)) for (int i = 0; i < gT; i++)
-      if (g->verif_ctrl(i)->verif_state() == READY && gWorkerExited[i] && gHanded[i] < gLoaded[i])
-        gAsserts.push_back("the chunk loaded into buffer " + S(i) + " (" + S(gLoaded[i]) + " blocks, " + S(gHanded[i]) + " handed out) is owned by no worker: worker " + S(i) + " has returned"); }
+      if (g->verif_ctrl(i)->verif_state() == READY && gHanded[i] < gLoaded[i] && (gWorkerExited[i] || status.compare(0, 8, "DEADLOCK") == 0))
+        gAsserts.push_back("the chunk loaded into buffer " + S(i) + " (" + S(gLoaded[i]) + " blocks, " + S(gHanded[i]) + " handed out) is owned by no worker: " + (gWorkerExited[i] ? "worker " + S(i) + " has returned" : "the buffer is READY, yet no thread can run (no worker is waiting for it)")); }
   for (auto &a : gAsserts) out += "A\tsched\tC14\t" + a + " -- " + gReq + "\n";
   out += "S\t" + status + "\n";
   std::string loads; for (auto &l : gLoads) loads += " " + l;
@@ -213,6 +213,9 @@ int main(int argc, char **argv) {
     if (!pad) { in.resize(n / 16 * 16 + (rng.below(4) == 0 ? rng.below(16) : 0)); if (in.size() >= 16 && rng.below(3)) in[in.size() / 16 * 16 - 1] = (unsigned char)(1 + rng.below(16)); }
     for (int k = 0; k < per; k++) run_schedule(T, pad, in, rng.next() % 1000000007ull, k % 2);
   }
+  // the upper edge of the worker count: 15 and 16 workers with more chunks than workers (every ring position is loaded at least once)
+  for (int T : {15, 16}) for (int pad = 0; pad < 2; pad++) { g_failed_cfg = 0; bytes in = rng.padlike(chunk * (size_t)(T + 2) + 5); if (!pad) in.resize(in.size() / 16 * 16);
+    for (int k = 0; k < (tier_thorough() ? 6 : 2); k++) run_schedule(T, pad, in, rng.next() % 1000000007ull, k % 2); }
   emitI("sched", "schedules", S(g_sched)); emitI("sched", "intervals", S(g_intervals)); emitI("sched", "spurious_wakeups", S(g_spurious));
   fflush(g_proto);
   return 0;
